@@ -15,12 +15,14 @@
 package roview
 
 import (
+	"encoding/hex"
 	"fmt"
 	"reflect"
 	"runtime/debug"
 	"sort"
 	"strconv"
 	"strings"
+	"sync"
 )
 
 // StepKind is the kind of one step of an action path.
@@ -87,7 +89,7 @@ type Config struct {
 
 // DefaultConfig is the configuration used by C20.
 func DefaultConfig() Config {
-	return Config{PkgPrefix: "github.com/insomniacslk/dhcp", MaxCalls: 2, PreSteps: 3, MidSteps: 2, IndexCap: 3}
+	return Config{PkgPrefix: "github.com/insomniacslk/dhcp", MaxCalls: 2, PreSteps: 2, MidSteps: 1, IndexCap: 3}
 }
 
 var mutatorPrefixes = []string{"Set", "Add", "Update", "Delete", "Del", "With"}
@@ -332,6 +334,26 @@ func Discover(v any, cfg Config) []Action {
 
 func root(v any) reflect.Value { return reflect.ValueOf(v) }
 
+type methodKey struct {
+	t    reflect.Type
+	name string
+}
+
+var methodCache sync.Map // methodKey -> int (index in the method set, -1: absent or not niladic)
+
+func methodIndex(t reflect.Type, name string) int {
+	k := methodKey{t, name}
+	if v, ok := methodCache.Load(k); ok {
+		return v.(int)
+	}
+	idx := -1
+	if m, ok := t.MethodByName(name); ok && m.Type.NumIn() == 1 && m.Type.NumOut() >= 1 {
+		idx = m.Index
+	}
+	methodCache.Store(k, idx)
+	return idx
+}
+
 // Result of executing one action.
 type Result struct {
 	Text  string // deterministic rendering of all results (or of why the path could not be followed)
@@ -375,10 +397,11 @@ func Exec(v any, a Action) (r Result) {
 			if !ok {
 				return Result{Text: "<unreachable at " + exprOf(a.Steps[:k+1]) + ": nil receiver>"}
 			}
-			m := recv.MethodByName(s.Name)
-			if !m.IsValid() || m.Type().NumIn() != 0 {
+			mi := methodIndex(recv.Type(), s.Name)
+			if mi < 0 {
 				return Result{Text: "<unreachable at " + exprOf(a.Steps[:k+1]) + ": no niladic method on " + recv.Type().String() + ">"}
 			}
+			m := recv.Method(mi)
 			res := m.Call(nil)
 			if k == len(a.Steps)-1 {
 				parts := make([]string, len(res))
@@ -430,14 +453,20 @@ func render(b *strings.Builder, v reflect.Value, depth int) {
 	case reflect.Float32, reflect.Float64:
 		fmt.Fprintf(b, "%s(%v)", t, v.Float())
 	case reflect.String:
-		fmt.Fprintf(b, "%s(%q)", t, v.String())
+		b.WriteString(t.String())
+		b.WriteByte('(')
+		b.WriteString(strconv.Quote(v.String()))
+		b.WriteByte(')')
 	case reflect.Slice:
 		if v.IsNil() {
 			fmt.Fprintf(b, "%s(nil)", t)
 			return
 		}
 		if t.Elem().Kind() == reflect.Uint8 {
-			fmt.Fprintf(b, "%s{hex:%x}", t, v.Bytes())
+			b.WriteString(t.String())
+			b.WriteString("{hex:")
+			b.WriteString(hex.EncodeToString(v.Bytes()))
+			b.WriteByte('}')
 			return
 		}
 		fmt.Fprintf(b, "%s{", t)
